@@ -51,6 +51,14 @@ def _ken2_early(draw):
     return dict(D1=D1, D2=D2, R=R, dets=dets, t_d=t_d)
 
 
+@st.composite
+def _ratestick_rd(draw):
+    """documented for IC = 1: r_d >= R / cos(omega_c), with a non-default edge angle and radius"""
+    R = draw(uni(0.5, 2.0))
+    w = draw(st.one_of(uni(0.15, 0.7), uni(0.87, 1.35)))
+    return dict(IC=1, R=R, omega_c=w, r_d=R / math.cos(w) * draw(uni(0.55, 0.97)))
+
+
 def catalogue():
     C = []
 
@@ -137,6 +145,7 @@ def catalogue():
     add('ratestick.alpha', RS, rb, dict(alpha=_negstrict()))
     add('ratestick.IC', RS, rb, dict(IC=st.sampled_from([0, 4])))
     add('ratestick.r_d', RS, rb, dict(r_d=uni(0.1, 1.4)))
+    add('ratestick.r_d-general', RS, rb, dict(__multi__=_ratestick_rd()))
     add('ratestick.t_f', RS, rb, dict(t_f=_neg()))
     add('ratestick.xnodes', RS, dict(ynodes=3), dict(xnodes=st.sampled_from([0, -1])))
     add('ratestick.ynodes', RS, dict(xnodes=3), dict(ynodes=st.sampled_from([0, -1])))
